@@ -33,9 +33,9 @@ func pick(xs []string) string { return xs[rng.Intn(len(xs))] }
 
 var fieldNames = []string{"a", "b", "f1", "k_2", `x\ y`, `"q f"`, "été", "5", "1.5", "c\\-d", "NOTE", "_id"}
 var plainWords = []string{"b", "foo", "bar9", "x_y", "été", "日本", "NaN", "Inf", "nan", "a.b", "c-d"}
-var intWords = []string{"5", "-3", "0", "007", "42", "9223372036854775807", "-9223372036854775808", "9223372036854775808", "9007199254740993"}
+var intWords = []string{"5", "-3", "0", "007", "42", "9223372036854775807", "-9223372036854775808", "9223372036854775808", "9007199254740993", "010", "0100", "0x1f", "0b101", "0o17", "1_0", "08", "-010"}
 var floatWords = []string{"2.5", "1e6", "-0.0", "5.0", "0.125", "1.5", "-7.25", "1e-3", "0x1p-2", "1_000.5", "0.5"}
-var quotedWords = []string{`"q r"`, `""`, `"*"`, `"it's"`, `"a,b"`, `"NaN"`, `"5"`, `"1.5"`, `"AND"`, `"a*b?"`, `"/r/"`, `"x, y"`, `"(z)"`, `"%!"`, `"--c"`, `"/*c*/"`, `";"`, `'s q'`, `"é"`, `"\\"`, `" "`, `"[1 TO 2]"`, `"?"`}
+var quotedWords = []string{`"q r"`, `""`, `"*"`, `"it's"`, `"a,b"`, `"NaN"`, `"5"`, `"1.5"`, `"AND"`, `"a*b?"`, `"/r/"`, `"x, y"`, `"(z)"`, `"%!"`, `"--c"`, `"/*c*/"`, `";"`, `'s q'`, `"é"`, `"\\"`, `" "`, `"[1 TO 2]"`, `"?"`, "\"bel\a\"", "\"del\x7f\"", "\"so\x0e\"", "\"\U0010fffd\"", "\"tab\there\"", `"007"`, `"010"`, `"x\ny"`}
 var wildWords = []string{"w*", "?x", "*", "a*b?c", "?", "**", "a_b*", "5*", "-3?"}
 var regexWords = []string{"/r/", "/a b/", "/b/", "/[a-z]+/", `/a\/b/`, "/5/", "//", "/AND/"}
 var escWords = []string{`a\:b`, `a\ b`, `a\\b`, `b\*`, `\(x\)`, `\+1`, `x\"y`, `\-5`, `q\?`}
@@ -86,10 +86,11 @@ func termType(w string) int {
 // spec trees (the qt of Spec/Printer.v) -----------------------------------------------------------------
 
 type qt struct {
-	kind string // term fv cmp range fe and or not must mustnot boost fuzzy par
-	toks []string
-	kids []*qt
-	num  string // boost / fuzzy number, "" = none
+	kind   string // term fv cmp range fe and or not must mustnot boost fuzzy par
+	toks   []string
+	kids   []*qt
+	num    string // boost / fuzzy number, "" = none
+	numPar bool   // the number is written between parentheses (layout variant only)
 }
 
 func (t *qt) lvl() int {
@@ -142,7 +143,7 @@ func mk(kind string, kids ...*qt) *qt {
 }
 
 func tokStr(typ int, val string) string { return fmt.Sprintf("%d:%s", typ, hx(val)) }
-func termTok(w string) string            { return tokStr(termType(w), w) }
+func termTok(w string) string           { return tokStr(termType(w), w) }
 
 func genAtom(fielded bool) *qt {
 	f := pick(fieldNames)
@@ -216,12 +217,17 @@ func genTree(depth int, fielded bool) *qt {
 	return par(genTree(depth-1, fielded))
 }
 
+var allowNumPar = false
+
 // redundant parentheses at random places where C09 allows them
 func addPars(t *qt, p float64) *qt {
 	c := *t
 	c.kids = nil
 	for _, k := range t.kids {
 		c.kids = append(c.kids, addPars(k, p))
+	}
+	if allowNumPar && c.num != "" && rng.Float64() < p {
+		c.numPar = true
 	}
 	if rng.Float64() < p {
 		return par(&c)
@@ -269,7 +275,11 @@ func (t *qt) words(juxt func() bool) []string {
 		}
 		w := append(t.kids[0].words(juxt), op)
 		if t.num != "" {
-			w = append(w, t.num)
+			if t.numPar {
+				w = append(w, "(", t.num, ")")
+			} else {
+				w = append(w, t.num)
+			}
 		}
 		return w
 	case "par":
@@ -401,7 +411,7 @@ func join(words []string, style int) string {
 }
 
 // token alphabet for the exhaustive enumerations: every token type, several leaf kinds
-var enumAlphabet = []string{"a", "5", `"q r"`, "w*", "/r/", ":", "(", ")", "[", "]", "{", "}", "TO", "AND", "OR", "NOT", "+", "-", "~", "^", ">", "<", "=", "2.5", "*", `""`}
+var enumAlphabet = []string{"#", "a", "5", `"q r"`, "w*", "/r/", ":", "(", ")", "[", "]", "{", "}", "TO", "AND", "OR", "NOT", "+", "-", "~", "^", ">", "<", "=", "2.5", "*", `""`}
 
 func genEnum(maxLen int, sample int, dfs []string) {
 	n := len(enumAlphabet)
@@ -469,6 +479,8 @@ func genMain(args []string) {
 		genQuote(*n)
 	case "inject":
 		genInject(*n)
+	case "sem":
+		genSem(*n)
 	case "lex":
 		genLex(*n)
 	case "json":
@@ -555,7 +567,9 @@ func genJuxt(n int) {
 			toks[j] = pick(enumAlphabet)
 		}
 		k := rng.Intn(L - 1)
-		isTerm := func(s string) bool { return !strings.ContainsAny(s[:1], "()[]{}:+=><~^-") && s != "TO" && s != "AND" && s != "OR" && s != "NOT" }
+		isTerm := func(s string) bool {
+			return !strings.ContainsAny(s[:1], "()[]{}:+=><~^-") && s != "TO" && s != "AND" && s != "OR" && s != "NOT"
+		}
 		if !isTerm(toks[k]) || !isTerm(toks[k+1]) {
 			toks[k], toks[k+1] = "a", pick([]string{"b", "5", `"q r"`, "w*"})
 		}
@@ -624,7 +638,9 @@ func genLayout(n int) {
 		}
 		// redundant parentheses: if the original parses the variant parses to the same tree
 		if valid {
+			allowNumPar = true
 			t2 := addPars(t, 0.3)
+			allowNumPar = false
 			t2 = par(t2)
 			emitQ(join(t.words(nil), 0), df, fmt.Sprintf("rel=C09par;g=%d;role=a", g))
 			emitQ(join(t2.words(nil), 0), df, fmt.Sprintf("rel=C09par;g=%d;role=b", g))
